@@ -41,7 +41,7 @@ fn v(l: &mut Local, mt: &str, clause: &str, path: &str, what: String, case: &Cas
 }
 
 /// JSON value holding the written occurrence, or None if it is not where it belongs
-fn locate<'a>(mt: &str, root: &'a Value, f: &WField) -> Option<&'a Value> {
+pub fn locate<'a>(mt: &str, root: &'a Value, f: &WField) -> Option<&'a Value> {
     let container = if let Some(i) = f.seq_index {
         root.get("#")?.get(i)?
     } else if f.in_object {
@@ -266,7 +266,7 @@ pub fn judge(_cfg: &Config, case: &Case, l: &mut Local) {
 }
 
 /// Build the written fields of one shape; None if an exemplar cannot be canonicalised (reported separately)
-fn build(l: &Layout, g: &mut Gen, local: &mut Local, shape: &str) -> Option<Case> {
+pub fn build(l: &Layout, g: &mut Gen, local: &mut Local, shape: &str) -> Option<Case> {
     let gf: Vec<GenField> = g.message(l);
     let mut fields = Vec::new();
     for f in gf {
